@@ -297,7 +297,7 @@ func c05tGen(tier string, rng *rand.Rand) []tCase {
 	initRegistry()
 	nsets, nrand, npk, allCut := 26, 120, 40, 160
 	if tier == "thorough" {
-		nsets, nrand, npk, allCut = 400, 4000, 600, 700
+		nsets, nrand, npk, allCut = 150, 3000, 400, 300
 	}
 	var cs []tCase
 	main := rng
